@@ -288,8 +288,31 @@ def token_kind_templates(chk, gen, lm, TF, tier):
         samples[k] = samples[k] + extra + ["x" + e for e in extra[:4]]
     for k in kinds:
         if k not in samples:
-            raise AnalysisError(
-                f"token kind {k} is new: no value language recorded for it")
+            # a kind this table does not know: its values are whatever the
+            # probed lexer puts into tokens of that kind, plus - when the
+            # kind takes arbitrary text - the payloads that matter to a
+            # python string / identifier context
+            seen = []
+            for res in lp._cache.values():
+                if isinstance(res, list):
+                    for kk, vv in res:
+                        if kk == k and vv not in seen:
+                            seen.append(vv)
+            alpha = lp.alphabet(k)
+            adversarial = ["", "a", "λƛ", "\n", '"', "\\", "'", "a\\",
+                           '\\"', "{", "%s"] if alpha is ANYSET else []
+            samples[k] = seen[:400] + [a for a in adversarial
+                                       if a not in seen]
+            if not seen:
+                # no probe (<= 3 characters) builds this kind: identifier-
+                # like values exercise its arm without claiming anything
+                # about payloads the lexer may never produce
+                samples[k] = ["x", "ab", "a_b", "", "_x"]
+            chk.info("C02.token-compiles", f"token/{k}",
+                     f"token kind {k} is not in the value table: "
+                     f"{len(samples[k])} values taken from the probed lexer"
+                     + (" and the free-text payload classes"
+                        if alpha is ANYSET else ""))
         for val in samples[k]:
             for dc in (True, False):
                 cons = f"token/{k}"
